@@ -46,7 +46,9 @@ def _case(draw, tier, adaptive=False):
             "clip": draw(st.booleans()),
             # intermediate output times that are not step ends (the error is still measured at ts[-1] only: interpolated
             # values inside a step are O(sqrt(dt)) off by nature, but asking for them must not disturb the trajectory)
-            "outs": draw(st.sampled_from([[], [], [0.37], [1 / 3, 0.7]]))}
+            "outs": draw(st.sampled_from([[], [], [0.37], [1 / 3, 0.7]])),
+            # adaptive kind: the initial step as a fraction of the horizon (also as long as, or longer than, the horizon)
+            "dt0": draw(st.sampled_from([0.5, 0.5, 0.1, 1.0, 2.0]))}
 
 
 @st.composite
@@ -129,7 +131,7 @@ def enumerate_cases(tier):
                 yield {"kind": "adaptive", "combo": combo, "spec": dict(spec), "t0": rnd.choice([0.0, 0.5, -1.0]),
                        "T": rnd.choice([0.5, 1.0]), "entropy": rnd.randrange(2 ** 31 - 2),
                        "y0seed": rnd.randrange(2 ** 31), "kmax": 8, "paths": 512 if tier == "quick" else 2048,
-                       "clip": False}
+                       "clip": False, "dt0": [0.5, 1.0, 2.0, 0.1][(idx + seed) % 4]}
 
 
 def _solver_order(torchsde, sde, bm, combo):
@@ -224,7 +226,8 @@ def run_case(case):
         tols = [1e-1, 1e-2, 1e-3, 1e-4]
         for tol in tols:
             with torch.no_grad():
-                ys = torchsde.sdeint(sde, y0, ts, bm=bm, method=combo["method"], dt=case["T"] / 2, adaptive=True,
+                ys = torchsde.sdeint(sde, y0, ts, bm=bm, method=combo["method"], dt=case["T"] * case.get("dt0", 0.5),
+                                     adaptive=True,
                                      rtol=tol, atol=tol, dt_min=case["T"] * 2.0 ** -12, options=opts)
             errs.append(err_of(ys))
         checks += 1
